@@ -20,7 +20,7 @@ from checks import dlib
 MANIFEST = dict(
     level="exploration",
     technique="TLA+ spec MemModel (allocation inventory and estimator formulas, as-built and intended variants) checked by TLC over the option grid; every grid point's estimator values compared exactly with the real functions; real peak heap measured with a counting global allocator and validated by TLC as a trace (Trace_MemModel)",
-    text="MemModel.tla transcribes what the encoder allocates (window buffer, hash2/3/4, chain or tree, optimum array, literal coders, LZMA2 range-coder buffer) and what the decoders allocate, and the four public estimator formulas in u32 KiB arithmetic; TLC checks Estimate >= Alloc and Estimate <= 2*Alloc + 256 KiB on the grid dictionary {4 KiB .. 768 MiB} x mode x match finder x lc+lp for the intended formulas. The model is bound to the code three ways: the real estimators must return exactly the model's value on every grid point; the peak heap measured by a counting global allocator around real construction + use (dictionaries <= 32 MiB quick, 256 MiB thorough) must match the inventory within 24 KiB and satisfy the two inequalities on the measured numbers; and the measurements are accepted as a trace by TLC. LZMAReader::new_mem_limit is run over forged .lzma headers x limits around the need: above the limit it must fail with OutOfMemory having allocated < 1 KiB.",
+    text="MemModel.tla transcribes what the encoder allocates (window buffer, hash2/3/4, chain or tree, optimum array, literal coders, LZMA2 range-coder buffer) and what the decoders allocate, and the four public estimator formulas in u32 KiB arithmetic; TLC checks Estimate >= Alloc and Estimate <= 2*Alloc + 256 KiB on the grid dictionary {4 KiB .. 768 MiB} x mode x match finder x lc+lp for the intended formulas. The model is bound to the code three ways: the real estimators must return exactly the model's value on every grid point; the peak heap measured by a counting global allocator around real construction + use (dictionaries <= 32 MiB quick, 256 MiB thorough) must match the inventory within 24 KiB and satisfy the two inequalities on the measured numbers; and the measurements are accepted as a trace by TLC. Writers are also measured when constructed with a preset dictionary (0, 4 KiB, dict, 3 x dict): the estimate does not depend on it, so neither may the peak. LZMAReader::new_mem_limit is run over forged .lzma headers (dictionary x props x uncompressed-size field: unknown, small, around the dictionary, 2^32, 2^32 + 16, 2^64 - 2) x limits around the need: above the limit it must fail with OutOfMemory having allocated < 1 KiB.",
     ref="4.11, 6/C17",
     note="Allocator overhead, fragmentation and RSS are not measured (requested bytes of the Rust allocator API). Peaks above 32 MiB (quick) / 256 MiB (thorough) dictionaries are not measured: for those the claim rests on the inventory formula validated on the smaller ones. pb = 2 and nice_len = 64 are fixed in the measured grid (they only size price tables of a few KiB). 'Small constant factor' is read as estimate <= 2 * peak + 256 KiB.",
     ready=True,
@@ -135,13 +135,23 @@ def run(tier, replay=None):
         if quick and p["dict"] >= 8 * MiB and p["lclp"] != 3:
             continue
         meas.append({"id": f"m{i}", "kind": "enc_" + p["kind"], "opts": opts_of(p), "input_len": min(p["dict"] + 200000, 2 * MiB), "data": "text", "pi": i})
+    # writers constructed WITH a preset dictionary: the estimate does not grow with the preset, so the peak must not either
+    # (set_preset_dict copies into the window; any kept or temporary copy shows up as peak > estimate / > inventory)
+    for i, x in enumerate(pts):
+        p = x["point"]
+        if p["lclp"] != 3 or p["dict"] not in (4096, 65536, 1 * MiB, 8 * MiB):
+            continue
+        for n in sorted(set([0, 4096, p["dict"], min(3 * p["dict"], 3 * MiB)])):
+            o = opts_of(p)
+            o["preset_dict"] = n
+            meas.append({"id": f"mp{i}-{n}", "kind": "enc_" + p["kind"], "opts": o, "input_len": min(p["dict"] + 200000, 2 * MiB), "data": "text", "pi": i, "preset": n})
     dec = []
     for d in [4096, 65536, 1 * MiB, 8 * MiB] + ([] if quick else [64 * MiB]):
         for lclp in (0, 3, 4, 8):
             dec.append({"id": f"dl-{d}-{lclp}", "kind": "dec_lzma", "opts": opts_of({"dict": d, "mode": "fast", "mf": "hc4", "lclp": lclp}), "input_len": min(d + 100000, 2 * MiB), "dict": d, "lclp": lclp})
             if lclp <= 4:
                 dec.append({"id": f"d2-{d}-{lclp}", "kind": "dec_lzma2", "opts": opts_of({"dict": d, "mode": "fast", "mf": "hc4", "lclp": lclp}), "input_len": min(d + 100000, 2 * MiB), "dict": d, "lclp": lclp})
-    strip = lambda c: {k: v for k, v in c.items() if k not in ("pi", "dict", "lclp")}
+    strip = lambda c: {k: v for k, v in c.items() if k not in ("pi", "dict", "lclp", "preset")}
     big = [c for c in meas if c["opts"]["dict_size"] > 32 * MiB]
     small = [c for c in meas if c["opts"]["dict_size"] <= 32 * MiB]
     mres = dict(zip([c["id"] for c in small], dlib.run_cases("vh_mem", [strip(c) for c in small], nproc=4, per_batch=6, timeout=2400)))
@@ -185,7 +195,9 @@ def run(tier, replay=None):
     for c in meas:
         x = pts[c["pi"]]
         p = x["point"]
-        out = judge("encoder/" + p["kind"], "LZMAOptions::get_memory_usage", c, mres[c["id"]], x["alloc"], f"dict={p['dict']} {p['mode']}/{p['mf']} lc+lp={p['lclp']}")
+        pre = f" preset_dict={c['preset']}" if "preset" in c else ""
+        out = judge("encoder/" + p["kind"] + ("+preset" if pre else ""), "LZMAOptions::get_memory_usage", c, mres[c["id"]], x["alloc"],
+                    f"dict={p['dict']} {p['mode']}/{p['mf']} lc+lp={p['lclp']}{pre}")
         if out:
             trace.append({"op": "Enc", "kind": p["kind"], "dict": p["dict"], "mode": p["mode"], "mf": p["mf"], "lclp": p["lclp"], "est": out[0], "peak": out[1], "dlz": 0, "dlz2": 0})
     for c, r in zip(dec, dres):
@@ -207,11 +219,20 @@ def run(tier, replay=None):
     lim = []
     for d in (4096, 1 * MiB, 64 * MiB, 0xFFFFFFF0):
         for props in (0x5D, 0, 224, 4 * 9 + 8):
+            if d == 64 * MiB and props != 0x5D and quick:
+                continue
             need = 10 + (((max(d, 4096) + 15) & ~15) // 1024) + ((0x600 << ((props % 45) // 9 + (props % 45) % 9)) // 1024)
-            for lk in sorted(set([0, max(need - 1, 0), need, need + 1, 0xFFFFFFFF])):
+            # uncompressed-size field of the header: unknown, small, just below / above the dictionary, 2^32 with a small
+            # low word, 2^32 exactly, the largest known size. The need is a function of (dict_size, props) alone.
+            uncomps = [None, 10, max(d - 1, 1), d + 1000, (1 << 32) + 16, 1 << 32, (1 << 64) - 2]
+            for lk in sorted(set([0, max(need - 1, 0), need, need + 1, 1024, 0xFFFFFFFF])):
                 if lk >= need and d > 64 * MiB:
                     continue           # would really build a 4 GiB window
-                lim.append({"id": f"l-{d}-{props}-{lk}", "kind": "limit", "opts": {"preset": 1, "dict_size": d}, "props": props, "limit_kib": lk, "need": need})
+                for u in uncomps:
+                    c = {"id": f"l-{d}-{props}-{lk}-{u}", "kind": "limit", "opts": {"preset": 1, "dict_size": d}, "props": props, "limit_kib": lk, "need": need}
+                    if u is not None:
+                        c["uncomp"] = u
+                    lim.append(c)
     lres = dlib.run_cases("vh_mem", [{k: v for k, v in c.items() if k != "need"} for c in lim], nproc=2)
     for c, r in zip(lim, lres):
         if r.get("panic"):
@@ -229,7 +250,9 @@ def run(tier, replay=None):
         elif not above and r["outcome"] == "err:OutOfMemory":
             ctx.violation(f"new_mem_limit(limit={lk} KiB) refuses a stream needing only {need} KiB", {"family": "mem_limit", "class": "limit_too_strict"}, {"case": c})
         else:
-            classes.add(("mem_limit", dict_class(c["opts"]["dict_size"]), "above" if above else "within", r["outcome"]))
+            u = c.get("uncomp")
+            ucl = "unknown" if u is None else "<dict" if u < c["opts"]["dict_size"] else ">=2^32" if u >= (1 << 32) else ">dict"
+            classes.add(("mem_limit", dict_class(c["opts"]["dict_size"]), ucl, "above" if above else "within", r["outcome"]))
     stats["limit_cases"] = len(lim)
 
     # The model must describe this tree. Checked only now: if the estimators changed in a way that breaks the property,
@@ -264,7 +287,7 @@ def run(tier, replay=None):
     if ratios:
         ctx.cov["estimate_over_peak_min_max"] = [round(min(ratios), 4), round(max(ratios), 4)]
     ctx.cov["asbuilt_constants"] = asb
-    for c in (est_cases[0], strip(meas[0]), strip(meas[-1]), strip(dec[0]), {k: v for k, v in lim[1].items()}):
+    for c in (est_cases[0], strip(meas[0]), strip(meas[-1]), strip(dec[0]), {k: v for k, v in lim[1].items()}, {k: v for k, v in lim[-3].items()}):
         ctx.sample(c)
     ctx.assumptions += ["requested bytes of the Rust allocator API, not RSS; allocator overhead and fragmentation not counted",
                         f"peaks measured for dictionaries <= {dmax // MiB} MiB; larger ones rest on the inventory formula validated on those",
